@@ -53,6 +53,8 @@ func (a *progAuth) Shutdown() error { return nil }
 
 var authSeq uint64
 
+func nextAuthSeq() uint64 { return atomic.AddUint64(&authSeq, 1) }
+
 // ---- metrics wrapper: lets the harness wait for "connection close fully processed" ----
 // (clients.Manager calls Clients().OnDisconnected in connectionClosed and, for a durable session,
 // Packets().OnAddStore in sessionOffline after the queued packets were handed to persistence)
@@ -112,6 +114,7 @@ type BrokerOpts struct {
 	Preempt        bool
 	NoRetain       bool
 	SubsID         bool
+	SubsShared     bool
 	Overlap        bool
 	OfflineQoS0    bool
 	KeepAliveForce bool
@@ -173,6 +176,7 @@ func NewBroker(o BrokerOpts) (*Broker, error) {
 	mc.Options.RetainAvailable = !o.NoRetain
 	mc.Options.SubsOverlap = o.Overlap
 	mc.Options.SubsID = o.SubsID
+	mc.Options.SubsShared = o.SubsShared
 	mc.Options.SubsWildcard = true
 	mc.Options.ReceiveMax = o.ReceiveMax
 	mc.Options.MaxPacketSize = o.MaxPacketSize
